@@ -17,7 +17,7 @@ PROP = "C13"
 SEEDS = [0, 1, 7, 2 ** 31]
 COMPONENT_NAMES = ["laostar", "lrtdp", "astar", "bfs", "qlearning", "sarsa", "expsarsa", "doubleq", "rmax",
                    "bpi", "ga", "semimdp_option", "implicit", "policy_run_on", "policy_evaluate_on",
-                   "pomdp_run_on_fsc", "pomdp_run_on_alpha", "laostar_mixed_labels", "lrtdp_mixed_labels"]
+                   "pomdp_run_on_fsc", "pomdp_run_on_alpha", "laostar_mixed_labels", "lrtdp_mixed_labels", "lrtdp_large", "laostar_large"]
 PROBLEMS = ["p0", "p1", "p2"]
 PROBLEMS_THOROUGH = ["p0", "p1", "p2", "p3", "p4", "p5", "p6", "p7"]
 SEEDS_THOROUGH = SEEDS + [123456789, 42]
@@ -26,7 +26,7 @@ CASES = {"quick": len(COMPONENT_NAMES) * len(PROBLEMS) * len(SEEDS),
 CASE_TIMEOUT = 180
 REQUIRED = ["component_runs", "sentinel_checks", "digest_comparisons_in_process", "digest_comparisons_across_processes",
             "hashseed_processes"]
-RULE = ("19 randomised components (LAO*, LRTDP - also on a functional MDP whose state labels mix strings and tuples "
+RULE = ("21 randomised components (LAO*, LRTDP - also on a functional MDP whose state labels mix strings and tuples "
         "(unsortable) with several initial states -, A*, BFS, Q/SARSA/ExpSARSA/DoubleQ, R-MAX, bounded policy "
         "iteration, gradient ascent, semi-MDP option simulation with string-named options, implicit "
         "distributions, MDP roll-outs / Monte-Carlo evaluation, POMDP roll-outs with multi-state initial "
@@ -178,10 +178,33 @@ def relabeled(P):
     return P["mixed"]
 
 
+def large_problem(P, pid):
+    """a 20-26 state stochastic problem with string states (several states are open at once when LRTDP checks a label)"""
+    if "large" in P:
+        return P["large"]
+    from mon.gen import mdp as G, build as Bd
+    r = random.Random(f"C13-large-{_VS}-{pid}")
+    sp = G.random_spec(r, "proper", n_max=26, min_states=20, label_kind="str", allow_implicit=False, gamma=0.95,
+                       uniform_actions=True, allow_dup_actions=False, a_max=3, reward_sign="neg")
+    G.restrict_to_closure(sp, r)
+    sp.init = [(s, p) for s, p in sp.init if p > 0]
+    P["large"] = (sp, Bd.build(sp, "subclass"))
+    return P["large"]
+
+
 def run_component(name, pid, seed):
     """Returns a digestable result."""
     P = problem(pid)
     sp, mdp = P["sp"], P["mdp"]
+    if name in ("lrtdp_large", "laostar_large"):
+        from msdm.algorithms import LAOStar, LRTDP
+        spl, ml = large_problem(P, pid)
+        if name == "lrtdp_large":
+            res = LRTDP(heuristic=lambda s: 0.0, seed=seed, randomize_action_order=True, bellman_error_margin=1e-3).plan_on(ml)
+            return dict(iv=res.initial_value, V=dict(res.V), pol={s: dict(res.policy.action_dist(s).items()) for s in dict.keys(res.V)})
+        res = LAOStar(heuristic=lambda s: 0.0, seed=seed).plan_on(ml)
+        nodes = res.solution_graph.states_to_nodes
+        return dict(iv=res.initial_value, v=res.state_value_map, pol={s: dict(res.policy.action_dist(s).items()) for s in nodes})
     if name in ("laostar_mixed_labels", "lrtdp_mixed_labels"):
         from msdm.algorithms import LAOStar, LRTDP
         mm, f, g = relabeled(P)
@@ -218,8 +241,11 @@ def run_component(name, pid, seed):
         from msdm.algorithms.search import AStarSearch, BreadthFirstSearch
         from msdm.core.mdp import QuickMDP
         nodes, edges, goals, start = P["graph"]
+        # actions(s) hands out the SAME stored list on every call (compared before / after in run_case)
+        glists = P.setdefault("graph_action_lists", {s: ["a", "b", "c"] for s in nodes})
+        P.setdefault("graph_action_snapshot", {s: tuple(v) for s, v in glists.items()})
         prob = QuickMDP(next_state=lambda s, a: edges[(s, a)][0], initial_state=start,
-                        reward=lambda s, a, ns: -edges[(s, a)][1], actions=lambda s: ("a", "b", "c"),
+                        reward=lambda s, a, ns: -edges[(s, a)][1], actions=lambda s: glists[s],
                         is_absorbing=lambda s: s in goals)
         if name == "astar":
             res = AStarSearch(seed=seed, randomize_action_order=True, tie_breaking_strategy="random").plan_on(prob)
@@ -351,6 +377,14 @@ def run_case(case, rng):
                       f"{comp}({pid}, seed={seed}): mdp.actions(s) changed after the call", **facts)
             for s_, v in m_.action_snapshot.items():
                 m_.action_lists[s_][:] = list(v)
+        P_ = problem(pid)
+        if "graph_action_lists" in P_:
+            now_g = {s_: tuple(v) for s_, v in P_["graph_action_lists"].items()}
+            if now_g != P_["graph_action_snapshot"]:
+                case.fail("component-mutated-the-problem's-own-action-lists",
+                          f"{comp}({pid}, seed={seed}): the search problem's actions(s) lists changed during the call", **facts)
+                for s_, v in P_["graph_action_snapshot"].items():
+                    P_["graph_action_lists"][s_][:] = list(v)
         case.check(before == after, "global-generator-state-disturbed",
                    f"{comp}({pid}, seed={seed}): global random/numpy/torch state changed during the call", **facts)
         digests.append(digest(res))
